@@ -1,9 +1,9 @@
 (* C30 — distance kernels of porepy/geometry/distances.py on SQUARED distances:
    point_pointset, points_segments (one point, one segment: both loop variants of the code
    compute the same clamped projection), segment_segment_set (the vectorised
-   Sunday/Eberly case analysis, transcribed mask by mask for one segment of the set; the
-   tolerance SMALL_TOLERANCE = 1e-8*min(d1.d1, min over the SET of d2.d2) depends on the
-   whole set and is computed by the wrapper).  The code returns sqrt of what the model
+   Sunday/Eberly case analysis, transcribed mask by mask for one segment of the set, after
+   "fix: segment_segment_set uses relative tolerances": parallel iff
+   discr < 1e-8 * d1.d1 * d2.d2, sc[sN < 1e-8*sD] = 0, tc[tN < 1e-8*tD] = 0).  The code returns sqrt of what the model
    returns.  2-d inputs are embedded with z = 0.  Polygon kernels are not modelled
    (oracle only).  Numeric record and vectors: Model/C32.v.  Executable definitions only. *)
 From Coq Require Import List ZArith QArith Qabs Bool Arith.
@@ -82,15 +82,16 @@ Section Model.
 
   (* one segment (c,d) of the set against the main segment (a,b):
      (dist**2, closest point on the main segment, closest point on (c,d), sc, tc) *)
-  Definition seg_seg (small : T) (a b c d : v3) : res (T * v3 * v3 * T * T) :=
+  Definition seg_seg (a b c d : v3) : res (T * v3 * v3 * T * T) :=
     let d1 := vsub b a in
     let d2 := vsub d c in
     let ds := vsub a c in
     let d11 := dot d1 d1 in let d12 := dot d1 d2 in let d22 := dot d2 d2 in
     let d1s := dot d1 ds in let d2s := dot d2 ds in
+    let small := n_atol T ops * d11 * d22 in       (* SMALL_TOLERANCE * dot_1_1 * dot_2_2 *)
     let q := stage3 d11 d12 d1s (stage2 d11 d1s (stage1 small d11 d12 d22 d1s d2s)) in
     let '(sN, sD, tN, tD) := q in
-    match ratio small sN sD, ratio small tN tD with
+    match ratio (n_atol T ops * sD) sN sD, ratio (n_atol T ops * tD) tN tD with
     | Ok sc, Ok tc =>
         let dist := vsub (vadd ds (vscale sc d1)) (vscale tc d2) in
         Ok (normsq dist, vadd a (vscale sc d1), vadd c (vscale tc d2), sc, tc)
@@ -98,33 +99,48 @@ Section Model.
     end.
 
   (* the inputs on which none of the tolerance masks changes the exact algorithm:
-     discr = 0 (exactly parallel) or discr >= SMALL, and the final numerators are 0 or
-     >= SMALL (so sc[sN < SMALL] = 0 / tc[tN < SMALL] = 0 do not truncate) *)
-  Definition off_band (small : T) (a b c d : v3) : bool :=
+     discr = 0 (exactly parallel) or discr >= tol*d11*d22, and the final numerators are 0 or
+     >= tol * denominator (so sc[sN < tol*sD] = 0 / tc[tN < tol*tD] = 0 do not truncate) *)
+  Definition off_band (a b c d : v3) : bool :=
     let d1 := vsub b a in
     let d2 := vsub d c in
     let ds := vsub a c in
     let d11 := dot d1 d1 in let d12 := dot d1 d2 in let d22 := dot d2 d2 in
     let d1s := dot d1 ds in let d2s := dot d2 ds in
     let discr := d11 * d22 - d12 * d12 in
+    let small := n_atol T ops * d11 * d22 in
     let q := stage3 d11 d12 d1s (stage2 d11 d1s (stage1 small d11 d12 d22 d1s d2s)) in
     let '(sN, sD, tN, tD) := q in
     (leb discr 0 || negb (ltb discr small))
-    && (leb sN 0 || negb (ltb sN small))
-    && (leb tN 0 || negb (ltb tN small)).
-
-  Definition tmin (x y : T) : T := if ltb y x then y else x.
-
-  (* SMALL_TOLERANCE = 1e-8 * np.minimum(dot_1_1, np.min(dot_2_2)) *)
-  Definition small_tol (a b : v3) (set : list (v3 * v3)) : T :=
-    let d1 := vsub b a in
-    let m := fold_right (fun s acc => let d2 := vsub (snd s) (fst s) in tmin (dot d2 d2) acc)
-                        (dot d1 d1) set in
-    n_atol T ops * m.
+    && (leb sN 0 || negb (ltb sN (n_atol T ops * sD)))
+    && (leb tN 0 || negb (ltb tN (n_atol T ops * tD))).
 
   Definition seg_seg_set (a b : v3) (set : list (v3 * v3)) : list (res (T * v3 * v3 * T * T)) :=
-    let small := small_tol a b set in
-    map (fun s => seg_seg small a b (fst s) (snd s)) set.
+    map (fun s => seg_seg a b (fst s) (snd s)) set.
+End Model.
+
+Section Model2.
+  Variable T : Type.
+  Variable ops : numops T.
+
+  Local Notation "0" := (n_zero T ops).
+  Local Notation "1" := (n_one T ops).
+  Local Notation "a + b" := (n_add T ops a b) (at level 50, left associativity).
+  Local Notation "a - b" := (n_sub T ops a b) (at level 50, left associativity).
+  Local Notation "a * b" := (n_mul T ops a b) (at level 40, left associativity).
+  Local Notation "a / b" := (n_div T ops a b) (at level 40, left associativity).
+  Local Notation "- a" := (n_opp T ops a) (at level 35, right associativity).
+  Local Notation leb := (n_leb T ops).
+  Local Notation ltb := (n_ltb T ops).
+  Local Notation dot := (dot T ops).
+  Local Notation vsub := (vsub T ops).
+  Local Notation vadd := (vadd T ops).
+  Local Notation vscale := (vscale T ops).
+  Local Notation normsq := (normsq T ops).
+  Local Notation v3 := (v3 T).
+  Local Notation seg_seg_set := (seg_seg_set T ops).
+  Local Notation off_band := (off_band T ops).
+  Local Notation point_segment := (point_segment T ops).
 
   (* ------------------------------------------------------------------ segment_set *)
   (* after "fix: distances.segment_set fills the distance matrix and closest points":
@@ -162,8 +178,7 @@ Section Model.
       end.
 
   Definition off_band_set (a b : v3) (set : list (v3 * v3)) : bool :=
-    let small := small_tol a b set in
-    forallb (fun s => off_band small a b (fst s) (snd s)) set.
+    forallb (fun s => off_band a b (fst s) (snd s)) set.
 
   (* ------------------------------------------------------------- point_in_polygon *)
   (* geometry_property_checks.point_in_polygon(poly, p, default=False) for one point *)
@@ -241,44 +256,60 @@ Section Model.
                 end
             end
     end.
-End Model.
+End Model2.
 
 (* ------------------------------------------------ comparison with numpy output *)
-(* impl gives the distance: compare its square with the model's squared distance *)
-Definition agree_pp (p q : v3 Q) (dist : Q) : bool :=
-  close (dist * dist) (point_point_sq Q QO p q).
+(* [tol] is an absolute tolerance for lengths and coordinates of the case (1e-9 of the
+   extent of the configuration + a few ulps of the coordinate magnitude, computed by the
+   harness).  impl gives the distance: its square is compared with the model's squared
+   distance up to (2|dist| + tol) * tol. *)
+Definition closeT (tol a b : Q) : bool := Qle_bool (Qabs (a - b)) tol.
+Definition close_sq (tol dist d2 : Q) : bool :=
+  closeT ((2 * Qabs dist + tol) * tol) (dist * dist) d2.
+Fixpoint close_listT (tol : Q) (a b : list Q) : bool :=
+  match a, b with
+  | [], [] => true
+  | x :: a', y :: b' => closeT tol x y && close_listT tol a' b'
+  | _, _ => false
+  end.
 
-Definition agree_ps (p a b : v3 Q) (out : res (list Q)) : bool :=
+Definition agree_pp (tol : Q) (p q : v3 Q) (dist : Q) : bool :=
+  close_sq tol dist (point_point_sq Q QO p q).
+
+Definition agree_ps (tol : Q) (p a b : v3 Q) (out : res (list Q)) : bool :=
   match point_segment Q QO p a b, out with
-  | Ok (d2, cp), Ok (dist :: cpl) => close (dist * dist) d2 && close_list cpl (v3l cp)
+  | Ok (d2, cp), Ok (dist :: cpl) => close_sq tol dist d2 && close_listT tol cpl (v3l cp)
   | Err e, Err e' => err_eqb e e'
   | _, _ => false
   end.
 
-Fixpoint agree_ss_list (model : list (res (Q * v3 Q * v3 Q * Q * Q))) (outs : list (res (list Q)))
-  : bool :=
+Fixpoint agree_ss_list (tol : Q) (model : list (res (Q * v3 Q * v3 Q * Q * Q)))
+         (outs : list (res (list Q))) : bool :=
   match model, outs with
   | [], [] => true
   | Ok (d2, cp1, cp2, _, _) :: m', Ok (dist :: l) :: o' =>
-      close (dist * dist) d2 && close_list l (v3l cp1 ++ v3l cp2) && agree_ss_list m' o'
-  | Err e :: m', Err e' :: o' => err_eqb e e' && agree_ss_list m' o'
+      close_sq tol dist d2 && close_listT tol l (v3l cp1 ++ v3l cp2) && agree_ss_list tol m' o'
+  | Err e :: m', Err e' :: o' => err_eqb e e' && agree_ss_list tol m' o'
   | _, _ => false
   end.
 
-Definition agree_ss (a b : v3 Q) (set : list (v3 Q * v3 Q)) (outs : list (res (list Q))) : bool :=
-  agree_ss_list (seg_seg_set Q QO a b set) outs.
+Definition agree_ss (tol : Q) (a b : v3 Q) (set : list (v3 Q * v3 Q))
+           (outs : list (res (list Q))) : bool :=
+  agree_ss_list tol (seg_seg_set Q QO a b set) outs.
 
 (* segment_set: every entry of the distance matrix and of the closest-point array *)
-Definition agree_sset_entry (segs : list (v3 Q * v3 Q)) (i j : nat) (out : res (list Q)) : bool :=
+Definition agree_sset_entry (tol : Q) (segs : list (v3 Q * v3 Q)) (i j : nat)
+           (out : res (list Q)) : bool :=
   match sset_entry Q QO segs i j, out with
-  | Ok (d2, cp), Ok (dist :: cpl) => close (dist * dist) d2 && close_list cpl (v3l cp)
+  | Ok (d2, cp), Ok (dist :: cpl) => close_sq tol dist d2 && close_listT tol cpl (v3l cp)
   | Err e, Err e' => err_eqb e e'
   | _, _ => false
   end.
 
-Definition agree_ppoly (p : v3 Q) (poly : list (v3 Q)) (out : res (list Q)) : bool :=
-  match points_polygon Q QO (1 # 100000) (1 # 100000) p poly, out with
-  | Ok (d2, cp, _), Ok (dist :: cpl) => close (dist * dist) d2 && close_list cpl (v3l cp)
+(* points_polygon(p, poly, tol=gtol); project_plane_matrix keeps its default 1e-5 *)
+Definition agree_ppoly (tol gtol : Q) (p : v3 Q) (poly : list (v3 Q)) (out : res (list Q)) : bool :=
+  match points_polygon Q QO (1 # 100000) gtol p poly, out with
+  | Ok (d2, cp, _), Ok (dist :: cpl) => close_sq tol dist d2 && close_listT tol cpl (v3l cp)
   | Err e, Err e' => err_eqb e e'
   | _, _ => false
   end.
